@@ -1,1 +1,15 @@
-pub fn hello() {}
+//! icyv — verification harness for mkrueger/icy_engine (property-based testing and fuzzing).
+pub mod alloc;
+pub mod engine;
+pub mod panics;
+pub mod worker;
+
+#[global_allocator]
+static GLOBAL: alloc::CountingAlloc = alloc::CountingAlloc;
+
+pub use engine::{Engine, PartCfg, Tier, Verdict};
+pub use proptest;
+pub use serde;
+pub use serde_json;
+pub mod stream;
+pub mod util;
